@@ -45,7 +45,7 @@ def here_state_writers(src):
 
 
 def build(repo, findings):
-    u = Unit('U27b', 'end of input inside a here-document: each extra round of the tokenizer loop makes progress', repo, ['C01', 'C19'], safety_props=['C01'])
+    u = Unit('U27b', 'end of input inside a here-document: each extra round of the tokenizer loop makes progress', repo, ['C01', 'C19'], safety_props=['C01', 'C19'])
     src = u.source('brush-parser/src/tokenizer.rs')
     for v in (r'\n\s*MissingHereTagForDocumentBody,', r'\n\s*MissingHereTag\(String\),', r'\n\s*UnterminatedHereDocuments\(String, String\),'):
         src.require_text(v, 'projected variant of TokenizerError')
@@ -126,14 +126,14 @@ def build(repo, findings):
     n1.resub(r'\bbreak;', 'return Ok(true);', 'R6', '`break` of the enclosing loop -> the wrapper reports "construct closed"', count=None)
     n1.resub(r'\n\}$', '\n    Ok(false)\n}', 'R6', 'wrapper epilogue: the loop goes on', count=1)
     n1.sig(fn, ret='res', requires=[C('aux an-open-construct-is-being-closed', '*old(nesting_count_) >= 1')], ensures=[
-        C('C01 construct-closed-exactly-when-the-count-reaches-zero', 'res is Ok ==> res->Ok_0 == (*old(nesting_count_) == 1)')])
+        C('C01,C19 construct-closed-exactly-when-the-count-reaches-zero', 'res is Ok ==> res->Ok_0 == (*old(nesting_count_) == 1)')])
     u.add(n1)
     fn = 'nested_construct_tail'
     n2 = src.slice('consume_nested_construct', r'^ {8}state\.append_char\(', None,
                    'fn nested_construct_tail(self_: &mut Tokenizer, state: &mut TokenParseState) -> Result<(), TokenizerError>', fn)
     n2.r1()
     n2.resub(r'\bself\b', 'self_', 'R6', 'slice wrapper: self -> self_', count=None)
-    n2.sig(fn, ret='res', ensures=[C('C01 the-closing-character-is-appended-or-the-input-ended', 'res is Ok ==> final(state).token_so_far@.len() == old(state).token_so_far@.len() + 1')])
+    n2.sig(fn, ret='res', ensures=[C('C01,C19 the-closing-character-is-appended-or-the-input-ended', 'res is Ok ==> final(state).token_so_far@.len() == old(state).token_so_far@.len() + 1')])
     u.add(n2)
     u.raw(FOOTER)
     u.assume('external_body', 'Tokenizer::next_char (None at the end of the input), TokenParseState::{pop, started_token, current_token, is_newline, append_str, replace_with_here_doc} and the string helpers are stubs read off their bodies; Token is opaque')
